@@ -21,6 +21,10 @@ FALLIBLE_EQUIV = {
     "TimeDelta::checked_add": "TimeDelta::add", "TimeDelta::checked_sub": "TimeDelta::sub",
 }
 OVERFLOW_OPS = {"AddWithOverflow": "Add", "SubWithOverflow": "Sub", "MulWithOverflow": "Mul"}
+PRIM_OPS = {"add": ("Add", 2), "sub": ("Sub", 2), "mul": ("Mul", 2), "div": ("Div", 2), "rem": ("Rem", 2), "bitand": ("BitAnd", 2),
+            "bitor": ("BitOr", 2), "bitxor": ("BitXor", 2), "neg": ("Neg", 1), "not": ("Not", 1), "lt": ("Lt", 2), "le": ("Le", 2),
+            "gt": ("Gt", 2), "ge": ("Ge", 2), "eq": ("Eq", 2), "ne": ("Ne", 2)}
+PRIM_OP = re.compile(r"^(i8|i16|i32|i64|i128|isize|u8|u16|u32|u64|u128|usize|f32|f64|bool|char)::(%s)(?:<\1>)?$" % "|".join(PRIM_OPS))
 COMMUTATIVE = {"Add", "Mul", "BitAnd", "BitOr", "BitXor", "Eq", "Ne", "Decimal::add", "Decimal::mul"}
 MIRROR = {"Gt": "Lt", "Ge": "Le"}
 TRANSPARENT_CALLS = {"String::clone", "str::to_owned", "str::to_string", "String::to_string", "String::from", "String::as_str",
@@ -248,6 +252,12 @@ def norm(v):
             name, args = name[:-2] + "lt", args[::-1]
         elif name.endswith("::ge") and len(args) == 2:
             name, args = name[:-2] + "le", args[::-1]
+        # an operator trait method on a primitive type is the primitive operation (`T: BitAnd` at T = i128)
+        pm = PRIM_OP.match(name)
+        if pm and len(args) == PRIM_OPS[pm.group(2)][1]:
+            name = PRIM_OPS[pm.group(2)][0]
+            if name in ("Gt", "Ge") and len(args) == 2:
+                name, args = ("Lt" if name == "Gt" else "Le"), args[::-1]
         if name in COMMUTATIVE:
             args = sorted(args, key=repr)
         t = (name,) + tuple(args)
